@@ -125,7 +125,13 @@ class EncodeState:
             str_encoding = get_string_encoding(base_data_type, base_type_encoding,
                                                is_highlow_byte_order)
             if str_encoding is not None:
-                raw_value = internal_value.encode(str_encoding)
+                try:
+                    raw_value = internal_value.encode(str_encoding)
+                except UnicodeError:
+                    odxraise(
+                        f"The value '{internal_value!r}' cannot be represented "
+                        f"using the '{str_encoding}' encoding.", EncodeError)
+                    raw_value = internal_value.encode(str_encoding, errors="replace")
             else:
                 raw_value = b""
 
